@@ -4,7 +4,7 @@ import ast
 from .core import AnalysisError, Finding
 from .astutil import unparse, dotted, walk_no_nested, fold, NotConstant
 from . import oracle, docs
-from .encsum import (all_summaries, oracle_spec, compare_with_oracle, injectivity, mask_after_guard, derived_operand,
+from .encsum import (all_summaries, summary_of, oracle_spec, compare_with_oracle, injectivity, mask_after_guard, derived_operand,
                      canon, show_cells)
 from .wiring import parse_item_outcomes, admits
 
@@ -20,6 +20,16 @@ def binding_line(facts, mnemonic):
     try:
         return facts.binding(mnemonic).node.lineno
     except AnalysisError:
+        return None
+
+
+def attempt(report, rule_fn, *args, **kwargs):
+    """Run one rule group; an AnalysisError inside it is a deferred no-verdict (Report.undecided), so that it cannot mask a violation
+    another rule group of the same run establishes."""
+    try:
+        return rule_fn(*args, **kwargs)
+    except AnalysisError as e:
+        report.undecided(str(e))
         return None
 
 
@@ -42,7 +52,9 @@ def check_layout(report, facts, mnemonics, rule):
     """(a)+(b): constant bits and operand bit positions equal the oracle; no overlapping fields."""
     sums = all_summaries(facts)
     for m in mnemonics:
-        s = sums[m]
+        s = summary_of(report, sums, m)
+        if s is None:
+            continue
         spec = oracle_spec(m)
         report.count('encoder summaries')
         if s.always_refused:
@@ -63,8 +75,8 @@ def check_layout(report, facts, mnemonics, rule):
 def check_injective(report, facts, mnemonics, rule):
     sums = all_summaries(facts)
     for m in mnemonics:
-        s = sums[m]
-        if s.always_refused:
+        s = summary_of(report, sums, m)
+        if s is None or s.always_refused:
             continue
         probs = injectivity(s)
         if not probs:
@@ -80,8 +92,8 @@ def check_disjoint(report, facts, mnemonics, rule, width):
     sums = all_summaries(facts)
     pats = []
     for m in mnemonics:
-        s = sums[m]
-        if s.always_refused or s.bits is None:
+        s = summary_of(report, sums, m)
+        if s is None or s.always_refused or s.bits is None:
             continue
         pats.append((m,) + s.const_mask_match(width))
     n = 0
@@ -104,7 +116,9 @@ def check_acceptance(report, facts, mnemonics, rule):
     """(c): accepted set == legal set, both inclusions, per operand."""
     sums = all_summaries(facts)
     for m in mnemonics:
-        s = sums[m]
+        s = summary_of(report, sums, m)
+        if s is None:
+            continue
         spec = oracle_spec(m)
         if s.always_refused:
             report.fail(Finding(rule, '{}:{}'.format(s.encoder, m), 'always refused',
@@ -113,8 +127,9 @@ def check_acceptance(report, facts, mnemonics, rule):
         mism = [x for x in compare_with_oracle(s, spec) if x[0].startswith('accepted') or x[0] in ('arity', 'operand')]
         n_ops = len(spec['operands'])
         if not mism and s.imprecise:
-            raise AnalysisError('{}: accepted set could only be over-approximated (a test on already extracted bits); '
-                                'no verdict on its equality with the legal set'.format(m))
+            report.undecided('{}: accepted set could only be over-approximated (a test on already extracted bits); '
+                             'no verdict on its equality with the legal set'.format(m))
+            continue
         if not mism:
             report.ok(rule, '{}: accepted set == legal set for {} operand(s)'.format(m, n_ops), nontrivial=n_ops > 0)
         for aspect, msg in mism:
@@ -126,7 +141,9 @@ def check_mask_guard(report, facts, mnemonics, rule):
     sums = all_summaries(facts)
     seen = set()
     for m in mnemonics:
-        s = sums[m]
+        s = summary_of(report, sums, m)
+        if s is None:
+            continue
         bad = mask_after_guard(s)
         report.count('mask sites examined', len(s.masks))
         for ev, msg in bad:
@@ -197,6 +214,10 @@ def operand_index(prov):
             consts = [x[1] for x in inner[1] if x[0] == 'const']
             if len(toks) == 1:
                 return toks[0][1], 'imm-offset' if '%offset' in consts else 'imm-token'
+    if prov[0] == 'call' and prov[1] in ('Offset', 'Arithmetic') and len(prov[2]) == 1 and not prov[3] and prov[2][0][0] == 'tok':
+        # the expression node built directly: Offset(tok) is what parse_immediate(['%offset', tok]) returns, Arithmetic(tok) what
+        # parse_immediate([tok]) returns for a token that is not a modifier
+        return prov[2][0][1], 'imm-offset' if prov[1] == 'Offset' else 'imm-token'
     if prov[0] == 'const':
         return None, 'const'
     return None, 'other'
@@ -212,6 +233,14 @@ def check_wiring(report, facts, rule, compressed, doc_text):
     all_arms, else_outs = parse_item_outcomes(facts)
     opaque_returns = [o for _, _, outs_ in list(all_arms) + [(None, None, else_outs)] for o in outs_
                       if o.kind == 'return' and (o.cls is None or o.cls not in facts.classes)]
+    unknown_head = [c for _, _, outs_ in list(all_arms) + [(None, None, else_outs)] for o in outs_ for c in getattr(o.path, 'unknown_head', ())]
+
+    def not_consulted(what):
+        """a mnemonic (table) for which no path was found is a finding only if every mnemonic test of parse_item was read"""
+        if unknown_head:
+            raise AnalysisError('parse_item: {}, but a test on the first token is not understood ({}): which lines reach which arm '
+                                'is not decided'.format(what, unknown_head[0][:60]))
+
     for tname, table in tables.items():
         mns = [m for m in table if m.startswith('c.') == compressed]
         if not mns:
@@ -222,12 +251,14 @@ def check_wiring(report, facts, rule, compressed, doc_text):
             raise AnalysisError('parse_item returns a value the token flow cannot follow ({}): which item is built for a line is '
                                 'not understood'.format(unparse(o.node).split('\n')[0]))
         if outs is None:
+            not_consulted('no path consults the mnemonic table {}'.format(tname))
             report.fail(Finding(rule, 'parse_item', 'no arm for ' + tname,
                                 'mnemonic table {} is never consulted by parse_item: {} cannot be written'.format(tname, mns),
                                 line=fn_line(facts, 'parse_item')))
             continue
         rets = [o for o in outs if o.kind == 'return' and o.cls != 'PseudoInstruction']
         if not rets:
+            not_consulted('the arm for {} builds no instruction item'.format(tname))
             report.fail(Finding(rule, 'parse_item', 'no constructor for ' + tname,
                                 'the arm for {} builds no instruction item'.format(tname), line=fn_line(facts, 'parse_item')))
             continue
@@ -264,8 +295,12 @@ def check_wiring(report, facts, rule, compressed, doc_text):
                                                         ' (no value for {})'.format(missing) if missing else ''), line=o.node.lineno),
                                 instance='{} arity {}'.format(cls, unparse(o.node)[:60]))
                     continue
-            # name parameter
-            nm = bound.get('name')
+            # name parameter: the constructor parameter stored into the attribute `name` (the key resolve_instructions looks the
+            # encoder up with), whatever the parameter is called
+            name_params = [src for attr, src, how in facts.attr_order_detailed(cls) if attr == 'name' and src and how in ('identity', 'idempotent')]
+            if len(name_params) != 1:
+                raise AnalysisError('{}: which constructor parameter fills the `name` attribute is not understood'.format(cls))
+            nm = bound.get(name_params[0])
             if nm is not None and nm[0] not in ('tok', 'tokend', 'lower', 'const', 'imm', 'int', 'rest', 'list', 'line'):
                 raise AnalysisError('parse_item: how the name field of {} is filled is not understood: {}'.format(cls, nm))
             if nm != ('lower', ('tok', 0)) and nm != ('tok', 0):
@@ -275,10 +310,18 @@ def check_wiring(report, facts, rule, compressed, doc_text):
             # route: encoder positional index -> token index
             route = []
             ok_route = True
+            detailed = {a_: (src_, how_) for a_, src_, how_ in facts.attr_order_detailed(cls)}
             for idx, attr in enumerate(args_attrs):
                 param = next((p for p, a in attr_of_param.items() if a == attr), None)
+                if param is None and detailed.get(attr, (None, None))[1] == 'idempotent':
+                    param = detailed[attr][0]
+                if param is None and detailed.get(attr, (None, 'other'))[1] != 'const':
+                    # args() hands the encoder something that is not a constructor parameter stored as it came (a property, a
+                    # computed attribute): where the operand comes from is not followed
+                    raise AnalysisError('{}.args() returns {}, which the constructor does not store from one of its parameters: the '
+                                        'route of that operand is not understood'.format(cls, attr))
                 if param is None or param not in bound:
-                    # default value (aq / rl / is_auipc_jump)
+                    # default value (aq / rl / is_auipc_jump) / constant attribute
                     route.append((idx, attr, None, 'default'))
                     continue
                 tok, shape = operand_index(bound[param])
@@ -290,9 +333,9 @@ def check_wiring(report, facts, rule, compressed, doc_text):
                 if not admits(facts, o.path, m):
                     continue            # a line starting with m never takes this path
                 built.add(m)
-                s = sums[m]
+                s = summary_of(report, sums, m)
                 spec = oracle_spec(m)
-                if spec is None:
+                if spec is None or s is None:
                     continue
                 enc_params = s.params
                 n_open = len(enc_params)
@@ -344,6 +387,10 @@ def check_wiring(report, facts, rule, compressed, doc_text):
                         problems.append('a non-integer {} operand is wrapped in %offset (value - address of the instruction), but {} is not a '
                                         'branch / jump: its operand is a plain value, so the same line would encode differently depending on '
                                         'where it stands'.format(role, m))
+                if problems and o.path.unknown_conds and not paren:
+                    raise AnalysisError('parse_item: the path building {} for {} rests on a condition about the operand tokens that is not '
+                                        'modelled ({}): whether it is the plain or the imm(reg) form is not decided'.format(
+                                            cls, m, o.path.unknown_conds[0][:60]))
                 if problems:
                     for pr in problems:
                         report.fail(Finding(rule, 'parse_item', o.node, '{}: {}'.format(label, pr), line=o.node.lineno), instance=label)
@@ -351,6 +398,7 @@ def check_wiring(report, facts, rule, compressed, doc_text):
                     report.ok(rule, label + ': operand k -> encoder parameter k')
         for m in mns:
             if m not in built and oracle_spec(m) is not None:
+                not_consulted('no path builds an item for {}'.format(m))
                 report.fail(Finding(rule, 'parse_item', 'no constructor for ' + m,
                                     'no path of parse_item builds an instruction item for {} ({}): it cannot be written'.format(m, tname),
                                     line=fn_line(facts, 'parse_item')), instance=m)
@@ -543,39 +591,71 @@ def check_rebuild_invariant(report, facts, rule):
         if owner is None:
             continue
         params = [p for p, _ in facts.init_params(cname)]
-        order = facts.full_attr_order(cname)
+        order = facts.attr_order_detailed(cname)
         n += 1
         if owner.init_vararg:
             # PseudoInstruction(line, name, *args): never rebuilt positionally (no register/imm attributes)
-            attrs = [a for a, _ in order]
+            attrs = [a for a, _, _ in order]
             if {'rd', 'rs1', 'rs2', 'rd_rs1', 'imm'} & set(attrs):
                 report.fail(Finding(rule, cname + '.__init__', 'vararg', 'class with *args constructor carries rebuildable fields',
                                     line=ci.node.lineno))
             else:
                 report.ok(rule, cname + ': varargs class has no rebuildable fields')
             continue
-        got = [(a, s) for a, s in order]
-        want = [(p, p) for p in params]
         if not sites:
             report.ok(rule, '{}: never rebuilt from its attribute dict'.format(cname), nontrivial=False)
-        elif not positional and sorted(got) == sorted(want):
-            report.ok(rule, '{}: attributes {} stored under their parameter names (keyword rebuild)'.format(cname, sorted(a for a, _ in got)))
-        elif got == want:
-            report.ok(rule, '{}: attribute order {} == parameter order'.format(cname, [a for a, _ in got]))
+            continue
+        if not facts.init_understood(cname):
+            raise AnalysisError('{}.__init__ stores attributes in a way the class model does not follow (only `self.x = <parameter>` '
+                                'statements and base-class calls are): whether a rebuild from vars(item) restores the item is not '
+                                'decided'.format(cname))
+        got = [(a, s_) for a, s_, _ in order]
+        unknown = [a for a, s_, how in order if how == 'other' or (s_ is None and how != 'const')]
+        if unknown:
+            raise AnalysisError('{}.__init__: how the attribute(s) {} derive from the constructor parameters is not understood'.format(
+                cname, unknown))
+        # the i-th value of vars(item) is handed back as the i-th constructor argument (positional rebuild) / under its attribute
+        # name (keyword rebuild): the item is restored iff that argument is the parameter the attribute was stored from, and storing
+        # it again gives the same value (the parameter itself, or an idempotent conversion of it such as name.lower())
+        if not positional:
+            bad = [(a, s_) for a, s_ in got if a != s_]
+            extra = [p_ for p_, d in facts.init_params(cname) if d is None and p_ not in [a for a, _ in got]]
+            if not bad and not extra:
+                report.ok(rule, '{}: attributes {} stored under their parameter names (keyword rebuild)'.format(cname, sorted(a for a, _ in got)))
+                continue
         else:
-            report.fail(Finding(rule, cname + '.__init__', 'attribute order',
-                                '{}: __init__ stores {} but its parameters are {}: positional rebuild would permute fields'.format(
-                                    cname, got, params), line=ci.node.lineno))
+            srcs = [s_ for _, s_ in got]
+            tail_ok = all(d is not None for _, d in facts.init_params(cname)[len(srcs):])
+            if srcs == params[:len(srcs)] and tail_ok:
+                report.ok(rule, '{}: attribute order {} == parameter order'.format(cname, [a for a, _ in got]))
+                continue
+        report.fail(Finding(rule, cname + '.__init__', 'attribute order',
+                            '{}: __init__ stores {} but its parameters are {}: {} rebuild would permute fields'.format(
+                                cname, got, params, 'positional' if positional else 'keyword'), line=ci.node.lineno))
     report.count('item classes checked for the rebuild invariant', n)
 
 
 def check_registers(report, facts, rule):
     """REGISTERS maps n, 'n', 'xn' and the ABI name of register n to n for n = 0..31 and nothing else."""
-    from . import tablefold
-    tablefold.settle(facts, 'REGISTERS', runtime_writes_matter=False)      # entries added after the literal (REGISTERS['fp'] = 8, .update({...})); exit 2 if not foldable
-    table = facts.tables.get('REGISTERS')
+    # the table is the one the register operands are actually looked up in (read off the encoder summaries), whatever it is called
+    used = set()
+    sums = all_summaries(facts)
+    for m in facts.instructions():
+        if oracle_spec(m) is None:
+            continue
+        s_ = summary_of(report, sums, m)
+        if s_ is not None:
+            used |= set(getattr(s_, 'reg_tables', ()))
+    if len(used) > 1:
+        raise AnalysisError('register operands are looked up in several tables ({}): which spellings are accepted is not decided'.format(sorted(used)))
+    tname = next(iter(used)) if used else 'REGISTERS'
+    table = facts.tables.get(tname)
     if table is None:
-        raise AnalysisError('anchor vanished: REGISTERS')
+        raise AnalysisError('anchor vanished: ' + tname)
+    # entries added after the literal (REGISTERS['fp'] = 8, .update({...}), a setdefault loop) are folded by the program model; a write
+    # it does not fold, or a function that fills the table at import time, is no verdict
+    from . import tablefold
+    tablefold.settle(facts, tname)
     want = {}
     for n in range(32):
         want[n] = n
@@ -583,21 +663,21 @@ def check_registers(report, facts, rule):
         want['x{}'.format(n)] = n
         want[oracle.ABI_NAMES[n]] = n
     want.update(oracle.ABI_EXTRA)
-    line = facts.assign_nodes['REGISTERS'].lineno
+    line = getattr(facts.assign_nodes.get(tname), 'lineno', None)
     bad = 0
     for k in sorted(set(want) | set(table), key=str):
         if k not in table:
-            report.fail(Finding(rule, 'REGISTERS', 'missing {!r}'.format(k), 'register spelling {!r} (x{}) is not accepted'.format(k, want[k]), line=line))
+            report.fail(Finding(rule, tname, 'missing {!r}'.format(k), 'register spelling {!r} (x{}) is not accepted'.format(k, want[k]), line=line))
             bad += 1
         elif k not in want:
-            report.fail(Finding(rule, 'REGISTERS', 'extra {!r}'.format(k), 'REGISTERS accepts the non-standard spelling {!r}'.format(k), line=line))
+            report.fail(Finding(rule, tname, 'extra {!r}'.format(k), '{} accepts the non-standard spelling {!r}'.format(tname, k), line=line))
             bad += 1
         elif table[k] != want[k]:
-            report.fail(Finding(rule, 'REGISTERS', 'entry {!r}'.format(k), 'register spelling {!r} maps to x{} instead of x{}'.format(k, table[k], want[k]), line=line))
+            report.fail(Finding(rule, tname, 'entry {!r}'.format(k), 'register spelling {!r} maps to x{} instead of x{}'.format(k, table[k], want[k]), line=line))
             bad += 1
     report.count('register spellings checked', len(want))
     if not bad:
-        report.ok(rule, 'REGISTERS: {} spellings map to their architectural number'.format(len(want)))
+        report.ok(rule, '{}: {} spellings map to their architectural number'.format(tname, len(want)))
 
 
 def check_resolve_instructions(report, facts, rule):
